@@ -192,10 +192,14 @@ Definition yield_of (path : string) (i : input) : yielded :=
 Definition queue_of (path : string) (ins : list input) : list qitem :=
   flat_map (fun i => match classify i with RcName n => [(i_bt i, n, path)] | _ => [] end) ins.
 
-(* one file: what it yields, what it queues, how it ends *)
-Definition scan_file (w bt : nat) (path : string) (ls : list string)
+(* one file: what it yields, what it queues, how it ends.  [rec] is read_data's recursion argument: False for the
+   top-level file (read up to the blank line that ends its third block), True for a file named by a read card *)
+Definition read_data_rec (w : nat) (rec : bool) (bt : nat) (ls : list string) : list input * option rd_err :=
+  rd_loop w rec ls 0 0 bt false false [].
+
+Definition scan_file (w : nat) (rec : bool) (bt : nat) (path : string) (ls : list string)
   : list yielded * list qitem * option ra_err :=
-  let (ins, e) := read_data_from w bt ls in
+  let (ins, e) := read_data_rec w rec bt ls in
   let (pre, perr) := cut_at_err ins in
   (map (yield_of path) pre, queue_of path pre,
    if perr then Some E_Parsing else match e with Some _ => Some E_Unsupported | None => None end).
@@ -216,7 +220,7 @@ Fixpoint drain (fuel : nat) (ft : opener) (dir : string) (w : nat) (q : list qit
           match ft p with
           | None => ([], Some E_FileNotFound)
           | Some ls =>
-              match scan_file w bt p ls with
+              match scan_file w true bt p ls with
               | (ys, qs, Some e) => (ys, Some e)
               | (ys, qs, None) =>
                   let (ys', e') := drain f ft dir w (List.app q' qs) in
@@ -239,7 +243,7 @@ Definition read_all_ft (w : nat) (ft : opener) (top : string) (fuel : nat) : ra_
   | None => mkRA None None [] (Some E_FileNotFound)
   | Some ls =>
       let fm := read_front_matters ls in
-      match scan_file w 0 top (f_rest fm) with
+      match scan_file w false 0 top (f_rest fm) with
       | (ys, qs, Some e) => mkRA (f_message fm) (f_title fm) ys (Some e)
       | (ys, qs, None) =>
           let (ys', e') := drain fuel ft (dirname top) w qs in
@@ -256,7 +260,7 @@ Definition inputs_of (ys : list yielded) : list (string * input) :=
 (* reading one file that holds no read card any more *)
 Definition read_single (w : nat) (ls : list string) : ra_result :=
   let fm := read_front_matters ls in
-  match scan_file w 0 "" (f_rest fm) with
+  match scan_file w false 0 "" (f_rest fm) with
   | (ys, _, e) => mkRA (f_message fm) (f_title fm) ys e
   end.
 
@@ -283,7 +287,7 @@ Definition item_path (dir : string) (it : qitem) : string := path_join dir (snd 
 
 Definition item_scan (w : nat) (ft : opener) (dir : string) (it : qitem)
   : option (list yielded * list qitem * option ra_err) :=
-  option_map (scan_file w (fst (fst it)) (item_path dir it)) (ft (item_path dir it)).
+  option_map (scan_file w true (fst (fst it)) (item_path dir it)) (ft (item_path dir it)).
 
 (* the file exists and is read to its end without an error *)
 Definition item_ok (w : nat) (ft : opener) (dir : string) (it : qitem) : Prop :=
@@ -300,7 +304,7 @@ Definition item_children (w : nat) (ft : opener) (dir : string) (it : qitem) : l
 (* every input of the item's file, the read cards included *)
 Definition item_inputs (w : nat) (ft : opener) (dir : string) (it : qitem) : list input :=
   match ft (item_path dir it) with
-  | Some ls => fst (read_data_from w (fst (fst it)) ls)
+  | Some ls => fst (read_data_rec w true (fst (fst it)) ls)
   | None => []
   end.
 
@@ -391,15 +395,20 @@ Definition render (sf : sfile) : list string :=
 (* block type after one more blank line (flush_block) *)
 Definition next_bt (bc bt : nat) : nat := if Nat.ltb (S bc) 3 then S bc else bt.
 
-Fixpoint more_tcards (bc bt : nat) (more : list (string * list card)) : list (nat * card) :=
+(* the top-level file (rec = false) is read up to the blank line that ends its third block *)
+Definition stops (rec : bool) (bc : nat) : bool := andb (Nat.leb 3 (S bc)) (negb rec).
+
+Fixpoint more_tcards (rec : bool) (bc bt : nat) (more : list (string * list card)) : list (nat * card) :=
   match more with
   | [] => []
-  | sb :: r => List.app (map (pair (next_bt bc bt)) (snd sb)) (more_tcards (S bc) (next_bt bc bt) r)
+  | sb :: r =>
+      if stops rec bc then []
+      else List.app (map (pair (next_bt bc bt)) (snd sb)) (more_tcards rec (S bc) (next_bt bc bt) r)
   end.
 
 (* the cards of a file read with block type bt, each with the block type it gets *)
-Definition sfile_tcards (bt : nat) (sf : sfile) : list (nat * card) :=
-  List.app (map (pair bt) (s_first sf)) (more_tcards 0 bt (s_more sf)).
+Definition sfile_tcards (rec : bool) (bt : nat) (sf : sfile) : list (nat * card) :=
+  List.app (map (pair bt) (s_first sf)) (more_tcards rec 0 bt (s_more sf)).
 
 Definition cook_t (w : nat) (tc : nat * card) : nat * list string := (fst tc, cooked w (snd tc)).
 
@@ -411,18 +420,27 @@ Definition nonread (w : nat) (tcs : list (nat * card)) : list (nat * card) :=
 Definition reads_of (w : nat) (path : string) (tcs : list (nat * card)) : list qitem :=
   flat_map (fun tc => match card_rc w (snd tc) with RcName n => [(fst tc, n, path)] | _ => [] end) tcs.
 
-Definition all_cards (sf : sfile) : list card := List.app (s_first sf) (flat_map snd (s_more sf)).
+(* a further block is only looked at while the reader has not stopped *)
+Fixpoint more_ok (w : nat) (rec : bool) (bc : nat) (more : list (string * list card)) : bool :=
+  match more with
+  | [] => true
+  | sb :: r =>
+      andb (blank_line (fst sb))
+           (if stops rec bc then true else andb (block_ok w (snd sb)) (more_ok w rec (S bc) r))
+  end.
 
-Definition sfile_ok (w : nat) (sf : sfile) : bool :=
+Definition read_cards (rec : bool) (sf : sfile) : list card := map snd (sfile_tcards rec 0 sf).
+
+Definition sfile_ok (w : nat) (rec : bool) (sf : sfile) : bool :=
   andb (block_ok w (s_first sf))
- (andb (forallb (fun sb => andb (blank_line (fst sb)) (block_ok w (snd sb))) (s_more sf))
-       (forallb (fun c => negb (is_rcerr (card_rc w c))) (all_cards sf))).
+ (andb (more_ok w rec 0 (s_more sf))
+       (forallb (fun c => negb (is_rcerr (card_rc w c))) (read_cards rec sf))).
 
 Definition is_nil {A : Type} (l : list A) : bool := match l with [] => true | _ => false end.
 
-(* the top-level file: at most three blocks hold cards *)
-Definition top_ok (w : nat) (sf : sfile) : bool :=
-  andb (sfile_ok w sf) (forallb (fun sb => is_nil (snd sb)) (skipn 2 (s_more sf))).
+(* the top-level file: what stands behind the blank line that ends its third block is not looked at (it may be
+   anything: a fourth "block" whose only "card" is that text) *)
+Definition top_ok (w : nat) (sf : sfile) : bool := sfile_ok w false sf.
 
 (* a file named by a read card: the cards of one block (no comment lines in front of the first one),
    then nothing but blank lines *)
@@ -445,7 +463,7 @@ Definition tree_ft (top : string) (tl : list string) (t : stree) : opener :=
 
 Definition s_item_cards (t : stree) (dir : string) (it : qitem) : list (nat * card) :=
   match slookup t (item_path dir it) with
-  | Some sf => sfile_tcards (fst (fst it)) sf
+  | Some sf => sfile_tcards true (fst (fst it)) sf
   | None => []
   end.
 
@@ -467,7 +485,7 @@ Definition nl_line : string := String nl "".
 
 Definition flatten (w : nat) (t : stree) (top : string) (tsf : sfile) (n : nat) : sfile :=
   let dir := dirname top in
-  let own := sfile_tcards 0 tsf in
+  let own := sfile_tcards false 0 tsf in
   let items := bfsG (s_children w t dir) n (reads_of w top own) in
   mkS (flat_block w t dir own items 0)
       [(nl_line, flat_block w t dir own items 1); (nl_line, flat_block w t dir own items 2)].
